@@ -337,8 +337,11 @@ def parse_kani(text, names):
         tm = re.search(r'Verification Time: ([\d.]+)s', b)
         # concrete playback
         pb = None
-        pm = re.search(r'Concrete playback unit test for `[^`]*`:\s*```\s*(.*?)```', b, re.S)
-        if pm: pb = pm.group(1)
+        pbs = re.findall(r'Concrete playback unit test for `[^`]*`:\s*```\s*(.*?)```', b, re.S)
+        # Kani also prints playback tests for satisfied cover properties: take the one generated for a failed check
+        for cand in pbs:
+            if not re.search(r'Check for `cover`', cand):
+                pb = cand; break
         unwind_fail = 'unwinding assertion' in b and re.search(r'unwinding assertion[^\n]*\n[^\n]*FAILURE', b) is not None
         res[short] = {'status': st, 'checks': checks, 'n_failed': nfailed, 'failed_checks': failed, 'time_s': float(tm.group(1)) if tm else None,
                       'covers': ({'satisfied': int(mcov.group(1)), 'total': int(mcov.group(2))} if mcov else None),
@@ -442,14 +445,39 @@ def decide(prop, tier, seed):
                 if prop in tags: relevant.append(d)
                 else: other_props.append(d)
             if relevant:
+                # rule 2: look for a concrete failing input with the paired bounded harness (if there is one)
+                pb_text = None; pb_h = None
+                paired = [h for h in U.HARNESSES if h['name'] in getattr(U, 'PAIRS', {}).get(f['fn'], [])]
+                if paired:
+                    pr = run_kani(paired)
+                    for h in paired:
+                        if pr[h['name']]['status'] == 'failed' and pr[h['name']].get('playback'):
+                            pb_text = pr[h['name']]['playback']; pb_h = h['name']; break
                 for d in relevant:
                     ob = '%s#%s' % (name, d['kind'] + ('[%s]' % d['clause']['tag'].replace(' ', ':') if d.get('clause') else ''))
                     violations.append({'obligation': ob, 'engine': 'verus', 'fn': f['fn'], 'file': f['file'], 'orig_line': f['orig_line'],
                                        'message': d['message'], 'clause': d.get('clause'), 'callee_clause': d.get('callee_clause'),
-                                       'rendered': d['rendered'], 'input': None})
+                                       'rendered': d['rendered'], 'input': pb_text, 'playback': pb_text, 'harness': pb_h})
             elif scaff and not other_props:
-                undecided.append('%s: proof scaffolding failed (%s) — proof needs maintenance or code changed shape' % (
-                    name, '; '.join(sorted({d['message'][:80] for d in scaff}))))
+                # rule 3: a failed loop invariant / assertion is not a violation by itself; look for a failing input with the paired harness
+                paired = [h for h in U.HARNESSES if h['name'] in getattr(U, 'PAIRS', {}).get(f['fn'], [])]
+                found = False
+                if paired:
+                    pr = run_kani(paired)
+                    for h in paired:
+                        r = pr[h['name']]
+                        if r['status'] == 'failed' and not (r.get('unwind_failure') and all('unwinding' in c['desc'] for c in r['failed_checks'])):
+                            found = True
+                            c = (r['failed_checks'] or [{'desc': 'verification failed', 'file': '', 'line': 0, 'in': ''}])[0]
+                            violations.append({'obligation': '%s#scaffolding+K:%s' % (name, h['name']), 'engine': 'kani', 'harness': h['name'],
+                                               'fn': f['fn'], 'file': f['file'], 'orig_line': f['orig_line'],
+                                               'message': 'Verus: %s; paired harness %s: %s' % (scaff[0]['message'][:120], h['name'], c['desc']),
+                                               'where': '%s:%s in %s' % (c['file'], c['line'], c['in']), 'playback': r.get('playback'),
+                                               'rendered': scaff[0]['rendered'] + '\n' + r.get('raw_tail', ''), 'input': r.get('playback')})
+                if not found:
+                    undecided.append('%s: proof scaffolding failed (%s)%s — proof needs maintenance or code changed shape' % (
+                        name, '; '.join(sorted({d['message'][:80] for d in scaff})),
+                        '; paired harness %s found no failing input' % ','.join(h['name'] for h in paired) if paired else '; no paired harness'))
             elif scaff and other_props:
                 # the function fails for another property; the scaffolding failure may hide this property's clause
                 undecided.append('%s: proof scaffolding failed next to a failure attributed to %s' % (
@@ -516,7 +544,7 @@ def decide(prop, tier, seed):
         hsh = hashlib.sha256(vi['obligation'].encode()).hexdigest()[:10]
         rp = os.path.join(VERIF, 'replays', '%s-%s.json' % (prop, hsh))
         replayed = None
-        if vi['engine'] == 'kani' and vi.get('playback'):
+        if vi.get('playback') and vi.get('harness'):
             replayed = replay_kani(vi)
         json.dump({'property': prop, 'obligation': vi['obligation'], 'engine': vi['engine'], 'message': vi['message'],
                    'function': vi.get('fn'), 'file': vi.get('file'), 'orig_line': vi.get('orig_line'), 'clause': vi.get('clause'),
